@@ -43,8 +43,12 @@ def design(tier, seed):
 
     r = tlc.run_model('RoundTripLemmas', 'RoundTripLemmas.cfg', workers=8, tag='C17-lemma', xmx='4g')
     tlc.cleanup(r['workdir'])
+    r2 = tlc.run_model('NormalizationLemmas', 'NormalizationLemmas.cfg', workers=8, tag='C17-norm', xmx='2g')
+    tlc.cleanup(r2['workdir'])
+    r['distinct'] += r2['distinct']
+    r['generated'] += r2['generated']
     return {'states': r['distinct'], 'transitions': r['generated'],
-            'runs': [f'RoundTripLemmas (the TLA+ decoder inverts the TLA+ encoder over U(2,2,15 types,2)): {r["distinct"]} states, {r["wall_s"]:.1f}s']}
+            'runs': [f'RoundTripLemmas (the TLA+ decoder inverts the TLA+ encoder over U(2,2,15 types,2)) + NormalizationLemmas (Denorm(Norm(t)) = t for all 4368 tables with 2 inputs and <= 3 outputs): {r["distinct"]} states, {r["wall_s"]:.1f}s']}
 
 
 def sources(tier, seed, ctx):
@@ -136,7 +140,7 @@ def record(src):
     if src['k'] == 'lookups':
         for n, tt in src['tables']:
             case = {'kind': 'lookup', 'db': src['db'], 'n': n, 'tt': [_rows(t) for t in tt], 'exc': '', 'found': False,
-                    'present': _normal_label(tt) in raw, 'src': {'k': 'lookups', 'db': src['db'], 'tables': [[n, tt]]}}
+                    'present': _normal_label(tt) in raw, 'norm_key': [_rows([ch == '1' for ch in part]) for part in _normal_label(tt).split('_')], 'src': {'k': 'lookups', 'db': src['db'], 'tables': [[n, tt]]}}
             try:
                 rows = [[bool(v) for v in t] for t in tt]
                 # the documented argument type is Sequence[Sequence[bool]]: rows may be tuples
